@@ -66,11 +66,19 @@ def run_real(scn, choose):
             me = sched.me()
             call = "%s( %s )" % (name, " ".join(ari.c_av(a) for a in args))
             sched.park(("abegin", name))
-            sched.event("ab", me.name, " ".join(call.split()))
-            k = int(me.name[1:]) - 1 if me.name.startswith("T") else None
+            # the request a pool task works for: the k-th task the READER submitted is the k-th request; a task submitted by
+            # another pool task works for its submitter's request
+            root = me
+            while root.kind == "task" and root.meta.get("submitter") not in (None, "R") and root.meta["submitter"] in sched.threads:
+                root = sched.threads[root.meta["submitter"]]
+            k = None
+            if root.kind == "task":
+                by_reader = [t.name for t in sched.threads.values() if t.kind == "task" and t.meta.get("submitter") == "R"]
+                k = by_reader.index(root.name) if root.name in by_reader else None
             script = scn["requests"][k]["script"] if k is not None and k < len(scn["requests"]) else []
-            i = cursor.get(me.name, 0)
-            cursor[me.name] = i + 1
+            i = cursor.get(root.name, 0)
+            cursor[root.name] = i + 1
+            sched.event("ab", root.name, " ".join(call.split()))        # attributed to the request's own task
             o = script[i] if i < len(script) else ("ret", None)
             blk = scn.get("block")
             if blk and k == blk[0] and i == 0:
@@ -78,7 +86,7 @@ def run_real(scn, choose):
                 sched.park(("aend", name, o), cond=lambda: any(b.startswith(pre) for _, b in sock.sent))
             else:
                 sched.park(("aend", name, o))
-            sched.event("ae", me.name, name, o)
+            sched.event("ae", root.name, name, o)
             if o[0] == "raise":
                 raise o[1]
             return o[1]
@@ -246,7 +254,10 @@ def oracle_c04(run, A, V):
                 V("reply-count:%s" % r["method"], "request %s (%s, %s): %d replies, %d handler notifications" % (r["id"], r["method"], r["kind"], len(reps), len(hs)))
         # dispatched once: the calls of this task are those scripted (cut at the first raise)
         want = len(r["script"]) if r["kind"] == "raise" else None
-        if want is not None and len(calls) != want:
+        # (fewer calls than the script up to its raise = a call was skipped; MORE calls — e.g. per-item queries that are not
+        # short-circuited by an earlier item's exception — do not contradict "each invoked once" and are not flagged here;
+        # a repeated first call is `dispatch-method`'s)
+        if want is not None and len(calls) < want:
             V("dispatch-count", "request %s: %d adapter calls, script has %d up to the raise" % (r["id"], len(calls), want))
         names = [c["call"].split("(")[0] for c in calls]
         first = {"NUS": "notify_user", "NUA": "notify_user_with_principal", "NNS": "notify_new_session", "NSC": "notify_session_close",
